@@ -191,6 +191,36 @@ def run(ctx):
             if abs(gs - ev[:, : ev.shape[1] // 2].mean()) > 1e-9 or abs(gp - np.abs(ev).min()) > 1e-9:
                 rep("analyse_hk does not report the mean of the lower half / the smallest |E| on the grid"); continue
             ctx.case(("grid", str(knum)), nontrivial=True)
+    # ---- grids of more than a thousand momenta that are not a multiple of 1024 (scalar k_num = 33, 40; [40, 30]) on the two-site cell
+    for knum in (33, 40, [40, 30], [30, 40]):
+        kx_n, ky_n = (knum, knum) if np.isscalar(knum) else knum
+        rep = lambda what, **kw: ctx.impl_violation(f"grid k_num={knum}: {what}", dict(case=f"grid{knum}", generator="honeycomb_lattice(1)", k_num=knum, **kw))
+        try:
+            gs, gp, klist, en = ps.analyse_hk(Hk2, knum, return_all_results=True)
+            gs_b, gp_b = ps.analyse_hk(Hk2, knum)
+        except Exception as ex:
+            rep(f"analyse_hk raised {type(ex).__name__}: {ex}"); continue
+        ks = np.array([(2 * np.pi * a / kx_n, 2 * np.pi * b / ky_n) for b in range(ky_n) for a in range(kx_n)])
+        ev = np.array([np.linalg.eigvalsh(Hk2(k)) for k in ks])
+        if abs(gs - ev[:, : ev.shape[1] // 2].mean()) > 1e-9 or abs(gp - np.abs(ev).min()) > 1e-9 or abs(gs_b - gs) > 1e-12 or abs(gp_b - gp) > 1e-12:
+            rep("analyse_hk does not report the mean of the lower half / the smallest |E| on the grid (grid of more than 1024 momenta)"); continue
+        ctx.case(("grid-large", str(knum)), nontrivial=True)
+    # ---- unit cells whose index arrays have a narrow dtype (uint8 with 18 and 32 sites, uint16 with 288): k = 0 is still the real-space Hamiltonian, entry by entry
+    for name_, lb, dt in (("honey3[uint8]", eg.honeycomb_lattice(3), np.uint8), ("honey4[uint8]", eg.honeycomb_lattice(4), np.uint8), ("honey12[uint16]", eg.honeycomb_lattice(12), np.uint16), ("honey3[int8]", eg.honeycomb_lattice(3), np.int8)):
+        P_, E_, C_ = zoo.raw(lb)
+        ln = Lattice(P_.copy(), E_.astype(dt), C_.copy())
+        un = (1 - 2 * rng.integers(0, 2, size=len(E_))).astype(np.int8); Jn = np.array([1.0, 0.5, 2.0]); cn_ = rng.integers(0, 3, size=len(E_)).astype(np.int8)
+        want = np.zeros((len(P_), len(P_)), dtype=complex)
+        for (a, b), jj, uu in zip(E_, Jn[cn_], un):
+            want[b, a] += 0.5j * jj * uu; want[a, b] -= 0.5j * jj * uu
+        try:
+            got_r = ham.majorana_hamiltonian(ln, cn_, un, Jn)
+            got_k = ps.k_hamiltonian_generator(ln, cn_, un, Jn)(np.array([0.0, 0.0]))
+            if not (np.array_equal(got_r, want) and np.array_equal(got_k, want)):
+                ctx.impl_violation(f"{name_}: on a lattice built from {np.dtype(dt).name} edge indices the real-space / k=0 Hamiltonian is not the sum of the bond terms", dict(case=name_, dtype=np.dtype(dt).name))
+        except Exception as ex:
+            ctx.impl_violation(f"{name_}: raised {type(ex).__name__}: {ex}", dict(case=name_, dtype=np.dtype(dt).name))
+        ctx.case((name_, "narrow dtype"), nontrivial=True)
     outs = core.Driver().run_parallel(reqs)
     for (tag, l, Hk, qs), o in zip(meta, outs):
         brk = lambda what: ctx.corr_break(f"{tag}: {what}", dict(case=tag, lattice=zoo.lat_to_json(l)))
